@@ -22,13 +22,16 @@ from vf.pyvc.api import VC
 M = "pydrobert.torch._decoding"
 
 
-def search_loop_p_vc(with_lens=True):
+def search_loop_p_vc(with_lens=True, fusion=False):
     import pydrobert.torch._decoding as D
+    import pydrobert.torch._lm as LMM
     from vf.pyvc import symtensor as stn
     from vf.pyvc.interp import LoopSpec, PathAbort
 
     z = ip.to_z3
     T, N, V, W, N0, K0, K1, R0 = z3.Ints("T N V width n0 k0 k1 r0")
+    BETA = z3.Real("beta")
+    EXPF = z3.Function("exp", z3.RealSort(), z3.RealSort())
     Iz, Rz, Bz = z3.IntSort(), z3.RealSort(), z3.BoolSort()
     fn = lambda nm, *so: z3.Function(nm, *so)
     LOGIT, LENS, SM = fn("logit", Iz, Iz, Iz, Rz), fn("lens", Iz, Iz), fn("softmax", Iz, Iz, Iz, Rz)
@@ -44,10 +47,10 @@ def search_loop_p_vc(with_lens=True):
     beam0 = lambda n, k: z3.And(z3.Not(GNBF(0, n, 0)), GNB(0, n, 0) == 0, z3.Not(GBF(0, n, 0)), GB(0, n, 0) == 1, GLEN(0, n, 0) == 0, GLAST(0, n, 0) == 0, GISP(0, n, 0, 0),
                                 z3.Implies(k >= 1, z3.And(GNBF(0, n, k), GBF(0, n, k), GLEN(0, n, k) == 0)))
     lens_ok = lambda n: z3.Implies(z3.And(0 <= n, n < N), z3.And(0 <= L(n), L(n) <= T))
-    names = ("nb_probs_prev", "b_probs_prev", "y_prev", "y_prev_lens", "y_prev_last", "prev_is_prefix", "prev_width")
+    names = ("nb_probs_prev", "b_probs_prev", "y_prev", "y_prev_lens", "y_prev_last", "prev_is_prefix", "prev_width") + (("prev",) if fusion else ())
 
     def inv_parts(st, t):
-        nb, b, y, ln, last, isp, pw = (st[x] for x in names)
+        nb, b, y, ln, last, isp, pw = (st[x] for x in names[:7])
         tau = mn(t, L(N0))
         slot = lambda k: z3.And(0 <= k, k < pw_of(t))
         cell = lambda x, k: ct.ng_split(x.elem(N0, k))
@@ -81,6 +84,71 @@ def search_loop_p_vc(with_lens=True):
         I.stubs["torch.softmax"] = I.stubs["torch.nn.functional.softmax"] = softmax
         g["method_overrides"] = {"softmax": softmax}
 
+        class Tok:  # an opaque model state
+            def __init__(self, what, **kw):
+                self.what, self.kw = what, kw
+
+        def update_input(I2, a, kw):
+            return Tok("initial")
+
+        def calc(I2, a, kw):
+            hist, prev, idx = a[1], a[2], a[3]
+            cur = g.get("cur")
+            if cur is None or "lmo" in cur:
+                raise ip.Unsupported("the language model is queried outside a frame of the search loop (or twice in one)")
+            st, pw = cur["st"], cur["pw"]
+            at = z3.And(0 <= N0, N0 < N, 0 <= K0, K0 < pw)
+            I2.ex.oblige("model_is_asked_about_the_current_prefixes_their_lengths_and_state", z3.And(
+                z3.BoolVal(prev is st["prev"] and hasattr(hist, "elem") and len(hist.shape) == 2 and hasattr(idx, "elem") and len(idx.shape) == 1), z(hist.shape[0]) == z(st["y_prev"].shape[0]), z(hist.shape[1]) == N * pw, z(idx.shape[0]) == N * pw,
+                z3.Implies(z3.And(at, 0 <= R0, R0 < z(st["y_prev"].shape[0])), z(hist.elem(R0, N0 * pw + K0)) == z(st["y_prev"].elem(R0, N0, K0))),
+                z3.Implies(at, z(idx.elem(N0 * pw + K0)) == z(st["y_prev_lens"].elem(N0, K0)))))
+            LMO = stn._fresh("model_score", Iz, Iz, Rz)
+            cur["lmo"], cur["in_next"] = LMO, Tok("after_frame")
+            return (stn.ST((N * pw, V), lambda i, v: LMO(z(i), z(v)), "float"), cur["in_next"])
+
+        def extract(I2, a, kw):
+            cur = g.get("cur")
+            if cur is None or "adv" not in cur:
+                raise ip.Unsupported("extract_by_src outside a frame of the search loop")
+            state, idx = a[1], a[2]
+            o, pw = cur["adv"], cur["pw"]
+            which = "old" if state is cur["st"]["prev"] else ("new" if state is cur.get("in_next") else None)
+            I2.ex.oblige("states_are_reindexed_by_the_global_source", z3.And(z3.BoolVal(which is not None and which not in cur.setdefault("extracted", {}) and hasattr(idx, "elem") and len(idx.shape) == 1), z(idx.shape[0]) == N * W,
+                                                                            z3.Implies(z3.And(0 <= N0, N0 < N, 0 <= K0, K0 < W), z(idx.elem(N0 * W + K0)) == N0 * pw + o["SRC"](N0, K0))))
+            tok = Tok("extracted_" + str(which))
+            cur.setdefault("extracted", {})[which] = tok
+            return tok
+
+        def mix(I2, a, kw):
+            cur = g.get("cur")
+            ex_ = (cur or {}).get("extracted", {})
+            if cur is None or "adv" not in cur or len(a) != 4:
+                raise ip.Unsupported("mix_by_mask outside a frame of the search loop")
+            t_true, t_false, mask = a[1], a[2], a[3]
+            o = cur["adv"]
+            # mix_by_mask(prev_true, prev_false, mask): where the mask holds the first state is kept - here: a slot that did NOT extend its
+            # prefix keeps the old (re-indexed) state, a slot that extended it takes the model's new (re-indexed) state
+            I2.ex.oblige("non_extending_slots_keep_the_old_state_extending_ones_take_the_new", z3.And(z3.BoolVal(t_true is ex_.get("old") and t_false is ex_.get("new") and hasattr(mask, "elem") and len(mask.shape) == 1), z(mask.shape[0]) == N * W,
+                                                                                                   z3.Implies(z3.And(0 <= N0, N0 < N, 0 <= K0, K0 < W), Bq(mask.elem(N0 * W + K0)) == o["NONEXT"](N0, K0))))
+            cur["mixed"] = Tok("mixed")
+            return cur["mixed"]
+
+        if fusion:
+            I.contracts.update({"SequentialLanguageModel.update_input": update_input, "SequentialLanguageModel.calc_idx_log_probs": calc,
+                                "ExtractableSequentialLanguageModel.extract_by_src": extract, "MixableSequentialLanguageModel.mix_by_mask": mix})
+            I.ex.ghost.setdefault("method_overrides", {})["exp"] = lambda I2, t_: stn.ST(t_.shape, (lambda e_: (lambda *idx: EXPF(z(e_(*idx)))))(t_.elem), "float")
+
+        def ext_want(cur, n, k, v, t, pw):
+            """extension probability of label v after the prefix in slot k: the frame's label probability, with shallow fusion times
+            exp(beta * log_softmax(model scores of that prefix))[v]"""
+            if not fusion:
+                return SM(t, n, v)
+            LS = I.ex.ghost.get("log_softmaxes", [])
+            if len(LS) != 1 or "lmo" not in cur:
+                raise ip.Unsupported("shallow fusion without exactly one log_softmax of the model's scores in the frame")
+            I.ex.oblige("structure.fusion.log_softmax_of_the_model_scores", z3.And(z3.BoolVal(LS[-1]["dim"] == 1), z3.Implies(z3.And(0 <= n, n < N, 0 <= k, k < pw, 0 <= v, v < V), z(LS[-1]["of"].elem(n * pw + k, v)) == cur["lmo"](n * pw + k, v))))
+            return EXPF(BETA * LS[-1]["LS"](n * pw + k, v)) * SM(t, n, v)
+
         def advance(I2, a, kw):
             cur = g.get("cur")
             if cur is None or "adv" in cur or kw or len(a) != 7:
@@ -92,7 +160,7 @@ def search_loop_p_vc(with_lens=True):
             I2.ex.oblige("step_gets_the_label_and_blank_probabilities_of_frame_t", z3.And(
                 z3.BoolVal(all(hasattr(x, "elem") for x in (ext, nonext, blank)) and len(ext.shape) == 3 and len(nonext.shape) == 2 and len(blank.shape) == 1),
                 z(ext.shape[0]) == N, z(ext.shape[1]) == pw, z(ext.shape[2]) == V, z(nonext.shape[0]) == N, z(nonext.shape[1]) == V, z(blank.shape[0]) == N,
-                z3.Implies(at, z3.And(z(ext.elem(N0, K0, V0)) == SM(t, N0, V0), z(nonext.elem(N0, V0)) == SM(t, N0, V0), z(blank.elem(N0)) == SM(t, N0, V)))))
+                z3.Implies(at, z3.And(z(ext.elem(N0, K0, V0)) == ext_want(cur, N0, K0, V0, t, pw), z(nonext.elem(N0, V0)) == SM(t, N0, V0), z(blank.elem(N0)) == SM(t, N0, V)))))
             I2.ex.oblige("step_gets_the_width_and_the_current_beam", z3.And(z(width) == W, z3.BoolVal(nbp is st["nb_probs_prev"] and bp is st["b_probs_prev"] and y is st["y_prev"] and last is st["y_prev_last"]
                                                                                                   and ln is st["y_prev_lens"] and isp is st["prev_is_prefix"])))
             fr = lambda nm, *so: stn._fresh(nm, *so)
@@ -145,6 +213,8 @@ def search_loop_p_vc(with_lens=True):
                       "b_probs_prev": stn.ST((N, PW), lambda n, k: ct.NegGuarded(h["BF"](z(n), z(k)), h["B"](z(n), z(k))), "float"),
                       "y_prev": stn.ST((ROWS, N, PW), lambda r, n, k: h["Y"](z(r), z(n), z(k)), "long"), "y_prev_lens": stn.ST((N, PW), lambda n, k: h["LEN"](z(n), z(k)), "long"),
                       "y_prev_last": stn.ST((N, PW), lambda n, k: h["LAST"](z(n), z(k)), "long"), "prev_is_prefix": stn.ST((N, PW, PW), lambda n, k, k2: h["ISP"](z(n), z(k), z(k2)), "bool"), "prev_width": PW}
+                if fusion:
+                    st["prev"] = Tok("carried")
                 for nm in names:
                     f.locals[nm] = st[nm]
                 if case in (0, 1):
@@ -160,6 +230,8 @@ def search_loop_p_vc(with_lens=True):
                     o = cur.get("adv")
                     if o is None:
                         raise ip.Unsupported("the frame did not call ctc_prefix_search_advance")
+                    if fusion:
+                        I.ex.oblige("state_carried_into_the_next_frame_is_the_mixed_one", z3.BoolVal(cur.get("mixed") is not None and st1["prev"] is cur.get("mixed")))
                     # ghost assignment: beam(t + 1, n) is what the step returned for frame t
                     rec = lambda n, k, k2, r: z3.And(GNBF(t + 1, n, k) == o["NBF"](n, k), GNB(t + 1, n, k) == o["NB"](n, k), GBF(t + 1, n, k) == o["BF"](n, k), GB(t + 1, n, k) == o["B"](n, k),
                                                      GLEN(t + 1, n, k) == o["LEN"](n, k), GY(t + 1, n, k, r) == o["Y"](r, n, k), GLAST(t + 1, n, k) == o["LAST"](n, k), GISP(t + 1, n, k, k2) == o["ISP"](n, k, k2))
@@ -177,7 +249,8 @@ def search_loop_p_vc(with_lens=True):
                 g["final"] = st
 
         I.loops[("forward", 0)] = Frames("search", None, None, None, {})
-        obj = ip.SObj(D.CTCPrefixSearch, {"lm": None, "width": W, "beta": 0.2, "valid_mixture": False}, "search")
+        lm = ip.SObj(LMM.MixableSequentialLanguageModel, {"vocab_size": V}, "lm") if fusion else None
+        obj = ip.SObj(D.CTCPrefixSearch, {"lm": lm, "width": W, "beta": BETA if fusion else 0.2, "valid_mixture": False}, "search")
         return I.call(I.getattr(obj, "forward"), [logits] + ([lens] if with_lens else []), {})
 
     def post(p):
@@ -192,8 +265,8 @@ def search_loop_p_vc(with_lens=True):
                                                                                                                z3.Implies(z3.Not(z3.Or(GNBF(tau, N0, K0), GBF(tau, N0, K0))), z(pv) == GNB(tau, N0, K0) + GB(tau, N0, K0))))),
                 ("lengths_and_prefixes_are_that_beams", z3.Implies(slot, z3.And(z(ln.elem(N0, K0)) == GLEN(tau, N0, K0), z3.Implies(z3.And(0 <= R0, R0 < GLEN(tau, N0, K0), R0 < z(y.shape[0])), z(y.elem(R0, N0, K0)) == GY(tau, N0, K0, R0)))))]
 
-    pre = [T >= 0, N >= 1, V >= 1, W >= 1, 0 <= N0, N0 < N, z3.ForAll([n_], lens_ok(n_)), z3.ForAll([n_, k_], beam0(n_, k_))]
-    return VC("C05.P.search_loop", "CTCPrefixSearch.forward[no language model, lengths %s; symbolic frames, batch size, vocabulary, width]" % ("given" if with_lens else "omitted"), M, "CTCPrefixSearch.forward", thunk,
+    pre = ([BETA > 0, BETA <= 1] if fusion else []) + [T >= 0, N >= 1, V >= 1, W >= 1, 0 <= N0, N0 < N, z3.ForAll([n_], lens_ok(n_)), z3.ForAll([n_, k_], beam0(n_, k_))]
+    return VC("C05.P.search_loop", "CTCPrefixSearch.forward[%s, lengths %s; symbolic frames, batch size, vocabulary, width]" % ("shallow fusion with any language model" if fusion else "no language model", "given" if with_lens else "omitted"), M, "CTCPrefixSearch.forward", thunk,
               pre=pre, posts=[("beam_after_the_elements_own_frames", post)], inputs={"T": T, "N": N, "V": V, "width": W}, timeout_ms=60000, max_paths=64, witness_hints=[T == 2, N == 1, V == 2, W == 2],
               assumptions=["callee contract: ctc_prefix_search_advance is opaque here (fresh results of the shapes C05.P.advance_step proves - one more prefix row, width W -; lengths within its rows) - what one step computes is C05.P.advance_step / C05.S.advance_step; softmax over the classes: an uninterpreted element function",
                            "min / max over the lengths: attained bounds (assumed contracts); ghost history beam(tau, n) recorded by ghost assignment in the frame; beam(0) = the empty prefix with masses (0, 1)",
@@ -201,4 +274,4 @@ def search_loop_p_vc(with_lens=True):
 
 
 def loop_p_vcs(ctx):
-    return [search_loop_p_vc(True), search_loop_p_vc(False)]
+    return [search_loop_p_vc(True), search_loop_p_vc(False), search_loop_p_vc(True, fusion=True)]
